@@ -229,6 +229,75 @@ def ssh_fields(blob):
     return out
 
 
+# ------------------------------------------------------------------ own reader of PBES2-protected PKCS#8 (RFC 8018 / RFC 7914), independent of the library
+PRF_OIDS = {"1.2.840.113549.2.7": "sha1", "1.2.840.113549.2.8": "sha224", "1.2.840.113549.2.9": "sha256", "1.2.840.113549.2.10": "sha384",
+            "1.2.840.113549.2.11": "sha512", "1.2.840.113549.2.12": "sha512_224", "1.2.840.113549.2.13": "sha512_256",
+            "2.16.840.1.101.3.4.2.13": "sha3_224", "2.16.840.1.101.3.4.2.14": "sha3_256", "2.16.840.1.101.3.4.2.15": "sha3_384", "2.16.840.1.101.3.4.2.16": "sha3_512"}
+PRF_OF_PROTECTION = {"SHA1": "sha1", "SHA224": "sha224", "SHA256": "sha256", "SHA384": "sha384", "SHA512": "sha512", "SHA512-224": "sha512_224", "SHA512-256": "sha512_256",
+                     "SHA3-224": "sha3_224", "SHA3-256": "sha3_256", "SHA3-384": "sha3_384", "SHA3-512": "sha3_512"}
+ENC_OIDS = {"1.2.840.113549.3.7": ("DES3", 24, "CBC"), "2.16.840.1.101.3.4.1.2": ("AES", 16, "CBC"), "2.16.840.1.101.3.4.1.22": ("AES", 24, "CBC"),
+            "2.16.840.1.101.3.4.1.42": ("AES", 32, "CBC"), "2.16.840.1.101.3.4.1.6": ("AES", 16, "GCM"), "2.16.840.1.101.3.4.1.26": ("AES", 24, "GCM"),
+            "2.16.840.1.101.3.4.1.46": ("AES", 32, "GCM")}
+
+
+def own_pbes2_open(raw, pwb):
+    """(inner DER, description) of an EncryptedPrivateKeyInfo protected with PBES2, decrypted with hashlib + the reference ciphers.
+    Returns None if the structure is not PBES2 or uses something this reader does not know; raises ValueError if decryption fails."""
+    from ..refs import modes
+    from .. import oracles
+    if raw.startswith(b"-----"):
+        lines = [l for l in raw.decode().splitlines() if l and not l.startswith("-----") and ":" not in l]
+        raw = base64.b64decode("".join(lines))
+    try:
+        top = der.parse(raw)
+        alg, blob = top[0], top[1].as_bytes()
+        if alg[0].as_oid() != "1.2.840.113549.1.5.13":
+            return None
+        kdf, enc = alg[1][0], alg[1][1]
+        kdf_oid, kp = kdf[0].as_oid(), kdf[1]
+        enc_oid, iv = enc[0].as_oid(), enc[1].as_bytes()
+    except (der.DerError, IndexError, TypeError, AttributeError):
+        return None
+    if enc_oid not in ENC_OIDS:
+        return None
+    cname, klen, mode = ENC_OIDS[enc_oid]
+    desc = {"cipher": cname, "keylen": klen, "mode": mode}
+    if kdf_oid == "1.2.840.113549.1.5.12":
+        salt, count = kp[0].as_bytes(), kp[1].as_int()
+        prf = "sha1"
+        for m in list(kp.children)[2:]:
+            if m.children is not None:
+                oid = m[0].as_oid()
+                if oid not in PRF_OIDS:
+                    return None
+                prf = PRF_OIDS[oid]
+        desc.update(kdf="pbkdf2", prf=prf, count=count)
+        try:
+            key = hashlib.pbkdf2_hmac(prf, pwb, salt, count, klen)
+        except ValueError:
+            return None
+    elif kdf_oid == "1.3.6.1.4.1.11591.4.11":
+        salt, N, r, p_ = kp[0].as_bytes(), kp[1].as_int(), kp[2].as_int(), kp[3].as_int()
+        desc.update(kdf="scrypt", N=N, r=r, p=p_)
+        key = hashlib.scrypt(pwb, salt=salt, n=N, r=r, p=p_, dklen=klen, maxmem=1 << 30)
+    else:
+        return None
+    bc_ = modes.aes_bc(key) if cname == "AES" else oracles.bc("DES3", key)
+    if mode == "CBC":
+        bs = 16 if cname == "AES" else 8
+        if len(blob) == 0 or len(blob) % bs:
+            raise ValueError("ciphertext not block aligned")
+        pt = modes.cbc_decrypt(bc_, iv, blob)
+        n = pt[-1]
+        if not 1 <= n <= bs or pt[-n:] != bytes([n]) * n:
+            raise ValueError("wrong padding after decryption")
+        return pt[:-n], desc
+    pt = modes.gcm_decrypt(bc_, iv, b"", blob[:-16], blob[-16:])
+    if pt is None:
+        raise ValueError("GCM tag mismatch")
+    return pt, desc
+
+
 def check_independent(c, data, comp, pw, rec, info):
     """Second, independent parser."""
     fam, fmt, private = c["fam"], c["format"], c["private"]
@@ -275,10 +344,39 @@ def check_independent(c, data, comp, pw, rec, info):
     pwb = None
     if pw is not None:
         pwb = pw.encode("utf-8") if isinstance(pw, str) else bytes(pw)
+    prot = c.get("protection") or ""
+    if pw is not None and prot:
+        # own PBES2 reader: the algorithm identifiers written into the file must be the registered ones for what was asked for, and the
+        # content must decrypt (hashlib KDF + reference cipher) to a key file that the independent parser reads as the same key
+        pw_l1 = None
+        if isinstance(pw, str):
+            try:
+                pw_l1 = pw.encode("latin-1")       # the library documents str passphrases as latin-1
+            except UnicodeEncodeError:
+                pw_l1 = None
+        else:
+            pw_l1 = bytes(pw)
+        if pw_l1 is not None:
+            try:
+                opened = own_pbes2_open(raw, pw_l1)
+            except ValueError as ex:
+                raise Violation("export/pbes2/own-reader-cannot-decrypt", "an independent PBES2 reader (hashlib + reference cipher) cannot open the export: %s" % ex, **info)
+            if opened is not None:
+                inner, desc = opened
+                if prot.startswith("PBKDF2WithHMAC-"):
+                    want = PRF_OF_PROTECTION.get(prot[len("PBKDF2WithHMAC-"):].split("And")[0])
+                    if want and desc.get("prf") != want:
+                        raise Violation("export/pbes2/prf-oid-mismatch", "protection %s wrote the PRF identifier of %s" % (prot, desc.get("prf")), **info)
+                try:
+                    parsed_inner = lc.decode_key(inner, None)
+                except lc.LibCryptoError:
+                    parsed_inner = None
+                if parsed_inner is not None and bool(parsed_inner.get("private")) != bool(private):
+                    raise Violation("export/%s/privacy-changed" % fam, "the decrypted PKCS#8 content is not a private key", **info)
+                rec.event("independent:own-pbes2:" + desc.get("kdf", "?"))
     try:
         parsed = lc.decode_key(raw, pwb)
     except lc.LibCryptoError as ex:
-        prot = c.get("protection") or ""
         mainstream = (not prot) or (prot.startswith("PBKDF2WithHMAC-") and prot.split("-", 1)[1].split("And")[0] in MAINSTREAM_PRF and prot.endswith("-CBC")) \
             or (prot.startswith("scryptAnd") and prot.endswith("-CBC"))
         non_ascii_pw = isinstance(pw, str) and any(ord(ch) > 127 for ch in pw)
